@@ -117,18 +117,23 @@ theorem grpc_data_requests_refused :
     (grpcDataTypes.all fun t => grpcDecide true [] t false false == .forbidden403) = true := by
   decide +kernel
 
+theorem grpcClusterBranch_fst (cfg : Str) (ch : Option Str) : (grpcClusterBranch cfg ch).1 = false := by
+  unfold grpcClusterBranch; split <;> rfl
+
 /-- a request without a session header never obtains a session -/
 theorem grpc_no_token_no_session (enableAuth : Bool) (hasSession : Str → Bool) (cfg : Str) (ch : Option Str) :
     (grpcFill enableAuth none hasSession cfg ch).1 = false := by
-  unfold grpcFill; cases enableAuth <;> simp <;> split <;> rfl
+  unfold grpcFill; cases enableAuth <;> exact grpcClusterBranch_fst cfg ch
 
 /-- an empty user token or one without a session gives no session -/
 theorem grpc_bad_token_no_session (t : Str) (hasSession : Str → Bool) (cfg : Str) (ch : Option Str)
     (h : t.isEmpty = true ∨ hasSession t = false) : (grpcFill true (some t) hasSession cfg ch).1 = false := by
   unfold grpcFill
-  rcases h with h | h
-  · simp [h]
-  · by_cases ht : t.isEmpty = true <;> simp [ht, h]
+  by_cases ht : t.isEmpty = true
+  · simp only [ht, if_true]; exact grpcClusterBranch_fst cfg ch
+  · rcases h with h | h
+    · exact absurd h ht
+    · simp [ht, h]
 
 /-- **cluster-internal requests are refused without the cluster token when one is configured** -/
 theorem cluster_requests_need_token (enableAuth : Bool) (cfg url : Str) (hasSession : Bool)
@@ -149,15 +154,14 @@ theorem cluster_requests_need_token (enableAuth : Bool) (cfg url : Str) (hasSess
   rw [hsc, hig, hcfg, hin]; cases enableAuth <;> rfl
 
 /-- the cluster token is compared only when the request carries no user token (or auth is off); a
-request that carries a user token never counts as cluster-authenticated -/
+request that carries a user token never counts as cluster-authenticated; and it is compared for **equality** - the
+configured token itself, nothing shorter, nothing longer -/
 theorem cluster_token_valid_iff (enableAuth : Bool) (ut : Option Str) (hasSession : Str → Bool)
     (cfg : Str) (ch : Option Str) :
     (grpcFill enableAuth ut hasSession cfg ch).2 = true →
       cfg.isEmpty = false ∧ ch = some cfg := by
-  unfold grpcFill
-  have key : (if (!cfg.isEmpty) = true then
-        ((false, match ch with | some c => c == cfg | none => false) : Bool × Bool) else (false, false)).2 = true →
-      cfg.isEmpty = false ∧ ch = some cfg := by
+  have key : (grpcClusterBranch cfg ch).2 = true → cfg.isEmpty = false ∧ ch = some cfg := by
+    unfold grpcClusterBranch
     by_cases hc : cfg.isEmpty = true
     · simp [hc]
     · have hc' : cfg.isEmpty = false := by simpa using hc
@@ -165,7 +169,15 @@ theorem cluster_token_valid_iff (enableAuth : Bool) (ut : Option Str) (hasSessio
       cases ch with
       | none => simp
       | some c => intro h; simpa using h
-  cases enableAuth <;> cases ut <;> first | exact key | (intro h; simp at h)
+  unfold grpcFill
+  cases enableAuth <;> cases ut with
+  | none => exact key
+  | some t =>
+    first
+    | exact key
+    | (by_cases ht : t.isEmpty = true
+       · simp only [ht, if_true]; exact key
+       · simp only [ht, Bool.false_eq_true, if_false]; intro h; cases h)
 
 /-! ## non-vacuity -/
 example : underApi [47, 78, 65, 67, 79, 83, 47, 118, 49, 47, 99, 115] = true ∧
